@@ -124,6 +124,14 @@ def mk(r, int_idx=False):
     return {"E": EndRule, "P": ProductionRule, "C": ConsumptionRule, "D": DuplicationRule}[r[0]](*args)
 
 
+def _rules(mine, optim):
+    """Rules built from the caller's own list, which the caller empties afterwards (the constructor takes a copy)"""
+    from pyformlang.indexed_grammar import Rules
+    rules = Rules(mine, optim)
+    mine.clear()
+    return rules
+
+
 def _perms(case):
     import itertools
     rs = case["rules"]
@@ -175,7 +183,7 @@ def run(case, out):
             _random.seed(case["perm_seed"] + pi)      # seam S2: optim=8 shuffles with the global generator
 
             def build():
-                return IndexedGrammar(Rules([mk(r, case.get("int_idx")) for r in rl], optim), lib_start)
+                return IndexedGrammar(_rules([mk(r, case.get("int_idx")) for r in rl], optim), lib_start)
             ig = out.call("IndexedGrammar(optim=%d)" % optim, build)
             if ig is FAILED:
                 break
@@ -207,7 +215,7 @@ def run(case, out):
         for optim in (7, 0, 3):
             _random.seed(case["perm_seed"])
             ig = out.call("IndexedGrammar(optim=%d)" % optim, lambda: IndexedGrammar(
-                Rules([mk(r, case.get("int_idx")) for r in case["rules"]], optim), lib_start))
+                _rules([mk(r, case.get("int_idx")) for r in case["rules"]], optim), lib_start))
             if ig is FAILED:
                 break
             res = out.call("intersection", ig.intersection, GF.build(fa_case))
